@@ -86,6 +86,12 @@ SCENARIOS["long-operation-header-with-string-defaults"] = FRAGS + (
     '$tagForFriends: String = "x, y", $idOfTheNode: ID = "n, 1", $textToSearchFor: String! = "one, two") { '
     'a: search(text: $textToSearchFor, opts: $firstGreeting) { __typename } b: search(text: "t", opts: $secondGreeting) { __typename } '
     'me { friends(first: $limitOfFriends, tag: $tagForFriends) { id } } node(id: $idOfTheNode) { id } }')
+# a fragment that is unpacked (written on an interface, spread at an implementing type) is spread conditionally in one operation and
+# plainly in others: every operation sends the fragment as its author wrote it (definitions are shared between operations)
+SCENARIOS["conditional-spread-of-an-unpacked-fragment-shared-by-operations"] = FRAGS + (
+    'fragment ContactParts on Named { name id }\n'
+    'query Profile($withContact: Boolean!) { me { id ...ContactParts @include(if: $withContact) } }\n'
+    'query Card { me { ...ContactParts } }\nquery Listing($hide: Boolean!) { me { friends { ...ContactParts @skip(if: $hide) } } }')
 REFUSAL_OK = {"mixin-on-inline-fragment-and-fragment-spread"}
 SCENARIOS["mixin-on-fragment-definition"] = FRAGS + 'fragment WithMixin on User @mixin(from: "pyvc_mixins", import: "FragDefMixin") { id }\nquery M { me { ...WithMixin } }'
 
